@@ -1,35 +1,17 @@
-"""Which executables exist and which property each one decides."""
+"""Which executables exist and which property each one decides.
 
-TARGETS = {
-    "c08_kernels": dict(src="props/c08_kernels.cpp", flavors=["gcc", "asan", "fuzz"], asan_div=8),
-}
+Every file bin/reg/Cxx.py defines TARGETS, PROPS and MANIFEST_TEXT dictionaries for one
+property; they are merged here."""
+import glob, os, runpy
 
-PROPS = {
-    "C08": dict(
-        targets=["c08_kernels"],
-        fuzz=[dict(target="c08_kernels", prop="spgemm_double", quick_runs=15000, thorough_runs=1000000, thorough_jobs=4, max_len=2048),
-              dict(target="c08_kernels", prop="pointwise", quick_runs=15000, thorough_runs=1000000, thorough_jobs=2, max_len=2048)],
-        level="exploration",
-        rule="tape-decoded random sparse operands (shapes 0..300, empty rows/cols, sorted and unsorted rows, double/complex/2x2,3x3 block values, "
-             "small-integer values so that every kernel operation is exact) compared bitwise with a dense reference; exhaustive pattern pairs up to 3x3 (4x3*3x4 thorough); "
-             "thread counts 1/4/17 (17 selects the row-merge SpGEMM). non-trivial: both operands have >=2 stored entries and the result has an accumulated entry "
-             "(spgemm/sum: overlapping contributions; pointwise: block size>=2 with >=2 blocks in a row; sort: a row actually out of order; transpose: rectangular). "
-             "distinct = distinct decoded choice sequences (64-bit hash), united over shards.",
-        assumptions=["dense reference arithmetic on small integers is exact in double", "Eigen's eigen/singular values are accurate to 1e-10 relative on n<=40 matrices"],
-        min_nontrivial=200,
-    ),
-}
+TARGETS, PROPS, MANIFEST_TEXT = {}, {}, {}
+for _f in sorted(glob.glob(os.path.join(os.path.dirname(os.path.abspath(__file__)), "reg", "C*.py"))):
+    _d = runpy.run_path(_f)
+    for _k, _dst in (("TARGETS", TARGETS), ("PROPS", PROPS), ("MANIFEST_TEXT", MANIFEST_TEXT)):
+        for _name, _v in _d.get(_k, {}).items():
+            if _name in _dst and _dst[_name] != _v:
+                raise RuntimeError("duplicate registry entry %s in %s" % (_name, _f))
+            _dst[_name] = _v
 
-HOOK_COMMITS = []
-
-MANIFEST_TEXT = {
-    "C08": dict(
-        engine="rapidcheck + enumerators + libFuzzer",
-        technique="property-based testing against an exact dense reference (bitwise, integer-valued operands), exhaustive small-scope pattern enumeration, coverage-guided fuzzing under ASan/UBSan",
-        level_text="Generated-input search: every public sparse kernel (spgemm_saad, spgemm_rmerge, product at 1/4/17 threads, transpose, sum, scale, sort_rows, diagonal, pointwise_matrix, "
-                   "crs copy/convert constructors, spectral_radius) is compared with an independent dense definition on exactly representable values, so agreement is bitwise; all pattern pairs up to 3x3 "
-                   "are enumerated. This is the right level because the property is a universally quantified functional equivalence with a cheap exact oracle; it cannot show absence beyond the explored sizes.",
-        level_note="trusted: the dense reference in common/dense.hpp and props/c08_kernels.cpp, Eigen for eigen/singular values, exactness of double arithmetic on small integers",
-        design_ref="DESIGN.md section 4, C08",
-    ),
-}
+# hook commits in /repo (guard AMGCL_VERIF)
+HOOK_COMMITS = ["8d89bbf"]
